@@ -28,6 +28,8 @@ PID = "C03"
 
 def validate(H, n, label="validate.type_check"):
     """Concrete differential: interpreter vs compiled code on random closed programs."""
+    if H.worker:
+        return
     replay = H.get_replay()
     ex, it = H.engine()
     ex.frames.append(Frame(ex._new_solver()))
@@ -90,7 +92,7 @@ def make_factory(H, budget, alphabet, fuel, obligations):
     return make
 
 
-def c03_obligations(ex, it, root):
+def c03_obligations(ex, it, root, ref_fuel=3000):
     info = lambda m: dict(TC.input_case(ex, m, root), events=[k for k, _ in ex.f.events])
     try:
         res, tctx, dctx = TC.call_type_check(it, root)
@@ -103,13 +105,13 @@ def c03_obligations(ex, it, root):
             ex.check(False, "A2.rejected-without-diagnostic", info=info)
         return
     e, ty = res.fields[0]
-    rc = RefChecker(ex, TC.concretize_ctor, fuel=3000)
+    rc = RefChecker(ex, TC.concretize_ctor, fuel=ref_fuel)
     try:
         tref = rc.infer(e, [])
         same = rc.conv(ty, tref, [])
     except Reject as r:
         ex.count("accepted")
-        ex.check(False, "A0.accepted-but-ill-typed: " + r.why, info=info)
+        ex.check(False, "A0.accepted-but-ill-typed%s: %s" % (" [in an annotation]" if "annotation" in r.roles else "", r.why), info=info)
         return
     except RefUnknown as u:
         ex.count("outside:" + u.why)
@@ -126,6 +128,22 @@ def c03_obligations(ex, it, root):
             ex.samples.append({"program": T.show(c["t"], c["cells"]), "verdict": "accepted"})
 
 
+GROUP_LEAVES = ["Variable", "Integer", "Type", "IntegerLiteral", "Unifier"]
+
+
+def group_families(H, quick, obligations):
+    """Definition groups whose members are leaves: forward references, type aliases, omitted
+    annotations -- the part of the quantifier a plain node budget does not reach."""
+    fams = [("groups of 2 leaf definitions (forward type aliases, omitted annotations)", ["Let2"], 6)]
+    if not quick:
+        fams.append(("groups of 3 leaf definitions", ["Let3"], 8))
+    out = []
+    for name, roots, budget in fams:
+        alpha = (lambda roots: (lambda n: roots if n.depth == 1 else GROUP_LEAVES))(roots)
+        out.append((name, make_factory(H, budget, alpha, 1200, lambda ex, it, root: obligations(ex, it, root, ref_fuel=250))))
+    return out
+
+
 def confirm(H, label, case):
     replay = H.get_replay()
     r = TC.native_type_check(replay, case)
@@ -140,6 +158,8 @@ def confirm(H, label, case):
     verdict = TC.ref_judge(cx, e)
     shown = "program %s elaborated to %s : %s" % (T.show(case["t"], case.get("cells")), r["ok"]["term_shown"], r["ok"]["type_shown"])
     if verdict[0] == "reject":
+        if ("[in an annotation]" in label) != ("annotation" in verdict[3]):
+            return False, "%s; rejected natively for a different reason (%s)" % (shown, verdict[1])
         return True, "%s; the reference checker rejects the elaborated term: %s" % (shown, verdict[1])
     if verdict[0] == "unknown":
         return False, "%s; reference cannot judge (%s)" % (shown, verdict[1])
@@ -154,7 +174,7 @@ def confirm(H, label, case):
 
 def classify(label, case):
     """Attribute a reproduced violation to a listed finding by the role of the failing rule."""
-    if "the annotation of" in label:
+    if "[in an annotation]" in label:
         return "C03-annotation-unchecked"
     if "open_fresh_hole" in case.get("events", []):
         return "hole-copied-by-open"
@@ -186,12 +206,15 @@ def main():
         return 1 if reproduced else 0
     validate(H, 150 if quick else 800)
     budget = 4 if quick else 5
-    t0 = time.time()
-    m = parallel_explore(make_factory(H, budget, TC.WITH_HOLES, 60000, c03_obligations), H.jobs)
-    H.absorb_merged("type_check B(%d) with holes" % budget, m)
-    H.log("type_check B(%d): %d paths %s, %d obligations, %d discharged, %d workers, %.1fs" % (
-        budget, m.stats.get("paths", 0), m.counters, m.stats.get("obligations", 0), m.stats.get("discharged", 0), m.workers, time.time() - t0))
-    handle(H, m.violations)
+    parts = [("type_check B(%d) with holes" % budget, make_factory(H, budget, TC.WITH_HOLES, 60000, c03_obligations))]
+    parts += group_families(H, quick, c03_obligations) if not os.environ.get("SKIPFAM") else []
+    for name, mk in parts:
+        t0 = time.time()
+        m = parallel_explore(mk, H.jobs)
+        H.absorb_merged(name, m)
+        H.log("%s: %d paths %s, %d obligations, %d discharged, %d workers, %.1fs" % (
+            name, m.stats.get("paths", 0), m.counters, m.stats.get("obligations", 0), m.stats.get("discharged", 0), m.workers, time.time() - t0))
+        handle(H, m.violations)
     H.bounds.update({"programs": "all closed parser-shaped terms (holes allowed, groups <= 2 definitions) with at most %d nodes" % budget,
                      "outside": "larger programs; results with unresolved holes; reference out of fuel"})
     H.assumptions += ["inputs satisfy the parser-output invariants (closed, hole shifts as the parser sets them, group body is not a group)",
